@@ -598,8 +598,22 @@ struct Judge {
     // direction filter is then bypassed and the witness is reported for a direction it does not monitor.
     static const char* exactZeroKey() { return "cpodes-exact-zero:unmonitored-direction-reported-when-root-bracket-ends-exactly-on-the-zero"; }
     static const char* coincKey() { return "cpodes-coincidence:crossing-or-dispatch-within-roundoff-of-a-report-or-scheduled-time"; }
+    // Residual of the restart situation after the cpRcheck1 repairs (narrower key, so that it is not read as a
+    // regression of those): the first root window after a restart with an exactly zero witness lies within
+    // roundoff (1e-13) of the restart time and STARTS a few ulps BEFORE it, so the witness that was zero at the
+    // restart is listed (and its handler called) a second time for the same crossing. Recognised from the
+    // window itself (driver I always, driver S with report-all); events so recognised are remembered by tHigh.
+    static const char* ulpKey() { return "cpodes-restart:window-starts-ulps-before-restart-time-with-exactly-zero-witness"; }
+    std::set<double> ulpWindowEvents;
+    const char* forced = nullptr;
+    bool isUlpWindow(const Traj& T, double tLow, double tHigh) const {
+        const double E = 1e-13 * std::max(1.0, std::fabs(tHigh));
+        return zeroWitnessRestart(T, tHigh) && tLow < T.ts && T.ts - tLow <= E && tHigh >= T.ts && tHigh - T.ts <= E;
+    }
     const char* attribute(const Traj& T, double t) const {
         if (!isCPodes(sc.ik)) return nullptr;
+        if (forced) return forced;
+        if (ulpWindowEvents.count(t)) return ulpKey();
         if (zeroWitnessRestart(T, t)) return restartKey();
         if (nearSpecial(t)) return coincKey();
         return nullptr;
@@ -1141,6 +1155,7 @@ void runManual(Ctx& c, Scen& sc, Built& B) {
             };
             c.require("event:returned-state-time-is-tLow:" + tag, t == tLow, base);
             c.require("event:advanced-time-is-tHigh:" + tag, tAdv == tHigh, base);
+            if (J.isUlpWindow(seg, tLow, tHigh)) { J.forced = Judge::ulpKey(); J.ulpWindowEvents.insert(tHigh); }
             J.requireK("event:window-nonempty:" + tag, tLow < tHigh, seg, tHigh, base);
             J.requireK("event:windows-in-time-order:" + tag, tLow >= lastTHigh && tLow >= seg.ts, seg, tHigh, [&] { return base().set("prevTHigh", lastTHigh); });
             // (report/scheduled/final times inside the window are C19's invariant I6, not judged here)
@@ -1229,6 +1244,7 @@ void runManual(Ctx& c, Scen& sc, Built& B) {
                 }
             }
             lastTHigh = tHigh;
+            J.forced = nullptr;
             // handle
             std::vector<double> yBefore = yhi;
             bool term = false; Stage lowest = Stage::Infinity;
@@ -1362,6 +1378,10 @@ void runStepper(Ctx& c, Scen& sc, Built& B) {
                 // the window is still available: the dispatched calls belong to it
                 try {
                     Vec2 w = integ.getEventWindow();
+                    if (n0 > 0) {   // restart = output of the previous dispatch
+                        Traj last; last.ts = S.log[n0 - 1].t; last.y = S.log[n0 - 1].yout; last.mu = S.log[n0 - 1].muOut; last.nu = S.log[n0 - 1].nuOut;
+                        if (J.isUlpWindow(last, w[0], w[1])) J.ulpWindowEvents.insert(w[1]);
+                    }
                     const Array_<EventId>& ids = integ.getTriggeredEvents();
                     std::set<int> listed; double Wmin = Infinity;
                     for (unsigned i = 0; i < ids.size(); ++i) { auto it = id2h.find((int)ids[i]); if (it != id2h.end()) { listed.insert(it->second); Wmin = std::min(Wmin, J.winBound(S.wits[S.hs[it->second].wit], acc, w[1] + sc.hmax)); } }
